@@ -22,7 +22,8 @@ pub fn safe_math_optimization(source_unit: SourceUnit, pre_080: bool) -> HashSet
         None => return optimization_locations,
     };
 
-    if (pre_080 && solidity_version.1 < 8) || (!pre_080 && solidity_version.1 >= 8) {
+    //(major, minor, patch) tuples compare lexicographically
+    if (pre_080 && solidity_version < (0, 8, 0)) || (!pre_080 && solidity_version >= (0, 8, 0)) {
         //if using safe math
         if check_if_using_safe_math(source_unit.clone()) {
             //get all locations that safe math functions are used
